@@ -98,6 +98,8 @@ class LoggedTransition:
             rec["draw"] = int(probe.integers(0, 2**63 - 1))
         new, stats = self.inner.sample(state, rng)
         rec["stats"] = None if stats is None else {k: _jsonable(v) for k, v in stats.items()}
+        if self.key != "momentum":
+            rec["pos_after"] = np.asarray(new.pos, dtype=float).tolist()   # the state an adapter of this transition sees
         self.log.write(rec)
         return new, stats
 
@@ -236,6 +238,13 @@ def config(draw, max_chain=4, max_warm=12, max_main=8, adapters=True, parallel=T
         "n_step": draw(st.integers(1, 3)),
         "depth": draw(st.integers(1, 3)),
         "progress": draw(st.sampled_from(["off", "off", "off", "custom-class", "monitor"])),
+        # generic sampler: a second statistics-bearing transition declaring the same statistic keys
+        "second": draw(st.booleans()),
+        # how "no adapters" is spelled: None, or an empty list / dictionary
+        "no_adapters_as": draw(st.sampled_from(["none", "empty"])),
+        # how the generator reached its state: seeded directly, by jumped(), or by assigning a saved state to a
+        # generator created without a seed (checkpoint restore)
+        "rng_init": draw(st.sampled_from(["seeded", "seeded", "jumped", "state-restored"])),
     }
     if cfg["adapters"] in ("step+var", "step+covar") and cfg["stager"] == "warmup":
         cfg["stager"] = "default"
@@ -243,10 +252,23 @@ def config(draw, max_chain=4, max_warm=12, max_main=8, adapters=True, parallel=T
 
 
 def make_rng(cfg):
-    name = cfg["rng"]
+    name, how = cfg["rng"], cfg.get("rng_init", "seeded")
     if name == "RandomState":
+        if how == "state-restored":
+            rs = np.random.RandomState()
+            rs.set_state(np.random.RandomState(cfg["seed"]).get_state())
+            return rs
         return np.random.RandomState(cfg["seed"])
-    return np.random.Generator(getattr(np.random, name)(cfg["seed"]))
+    cls = getattr(np.random, name)
+    # SFC64 cannot jump: the sampler can only spawn from its seed sequence, which is not part of the state, so
+    # only direct seeding defines the run there
+    if how == "jumped" and hasattr(cls, "jumped"):
+        return np.random.Generator(cls(cfg["seed"]).jumped(1 + cfg["seed"] % 3))
+    if how == "state-restored" and hasattr(cls, "jumped"):
+        bg = cls()
+        bg.state = cls(cfg["seed"]).state
+        return np.random.Generator(bg)
+    return np.random.Generator(cls(cfg["seed"]))
 
 
 def system_spec_of(cfg):
@@ -294,8 +316,13 @@ def build(cfg, log, *, delays=None, draw=False, interrupt=None, wrap_user=None, 
                 "momentum": LoggedTransition(mom_tr, "momentum", log, interrupt_at=ia if interrupt and interrupt[1] == "momentum" else None),
                 "integration": LoggedTransition(it_tr, "integration", log, delays, draw,
                                                 interrupt_at=ia if interrupt and interrupt[1] == "integration" else None),
-                "zz_record": Recorder(log, system if record_metric else None),
             }
+            b.stat_keys = [("integration", "integration")]
+            if cfg.get("second"):
+                trans["integration_b"] = LoggedTransition(
+                    mt.MetropolisStaticIntegrationTransition(system, integ, n_step=cfg["n_step"] + 2), "integration_b", log)
+                b.stat_keys.append(("integration_b", "integration_b"))
+            trans["zz_record"] = Recorder(log, system if record_metric else None)
             sampler = msamp.MarkovChainMonteCarloMethod(rng, trans)
             b.int_key = "integration"
         else:
@@ -316,6 +343,7 @@ def build(cfg, log, *, delays=None, draw=False, interrupt=None, wrap_user=None, 
                 interrupt_at=ia if interrupt and interrupt[1] == "integration" else None)
             tr["zz_record"] = Recorder(log, system if record_metric else None)
             b.int_key = "integration_transition"
+            b.stat_keys = [("integration_transition", "integration")]
     b.sampler, b.system, b.model, b.integrator = sampler, system, model, integ
     b.hmc = kind != "generic"
     # initial states
@@ -380,12 +408,12 @@ def run(cfg, b, memdir=None, timeout=120, n_process="cfg"):
         kw["force_memmap"] = True
     if cfg["storage"] == "memmap_dir":
         kw["memmap_path"] = memdir
+    style = cfg.get("no_adapters_as")
     if b.hmc:
-        kw["adapters"] = b.adapter_list
-        kw["trace_funcs"] = b.trace_funcs
+        kw["adapters"] = b.adapter_list if (b.adapter_list or style != "none") else None
     else:
-        kw["adapters"] = {b.int_key: b.adapter_list} if b.adapter_list else None
-        kw["trace_funcs"] = b.trace_funcs
+        kw["adapters"] = {b.int_key: b.adapter_list} if b.adapter_list else ({} if style == "empty" else None)
+    kw["trace_funcs"] = b.trace_funcs
     import logging
 
     logging.getLogger("mici.samplers").addHandler(logging.NullHandler())
